@@ -124,6 +124,20 @@ def run(F, R, tier):
                  "the comment loop of %s can stop early (`%s`): pragmas / JSDoc imports in comments visited later are not reported" % (b["path"].split("::")[-1], expr_text(early[0])[:20] if early else ""), where(early[0]) if early else "")
     R.floor("C08-V comment loops", n_cl, 2)
 
+    # `with` takes precedence over the legacy `assert` key of a dynamic import's options
+    pa = [b for b in F.bodies if b["file"] == "src/ast/dep.rs" and not b.get("derived") and any(n.get("k") == "Lit" and n.get("v") == "assert" for n in b["_nodes"]) and any(n.get("k") == "Lit" and n.get("v") == "with" for n in b["_nodes"]) and any(n["k"] == "For" for n in b["_nodes"])]
+    if R.ob("C08-A", "options-object attribute parser found", len(pa) == 1, "no single function in src/ast/dep.rs scans for both `with` and `assert` keys", "src/ast/dep.rs"):
+        b = pa[0]
+        flags = [n for n in b["_nodes"] if n["k"] == "Assign" and peel(n["r"]).get("k") == "Binary" and any(peel(peel(n["r"])[s_]).get("v") == "with" for s_ in ("l", "r"))]
+        ok = len(flags) == 1 and peel(flags[0]["r"])["op"] == "=="
+        if ok:
+            lid = peel(flags[0]["l"]).get("lid")
+            g = guards_at(F, flags[0])
+            # the guard that admits a key: with, or assert only if no with was seen
+            adm = [x for x in g if x.kind == "cond" and x.pol and x.node.get("k") == "Binary" and x.node["op"] == "||"]
+            ok = bool(adm) and any(is_neg_of_local(y, lid) for x in adm for y in walk(x.node) if y.get("k") == "Unary")
+        R.ob("C08-A", "an `assert` key is ignored once a `with` key was seen", ok, "the seen-`with` flag is not set by `key == \"with\"` or does not gate the `assert` key: `import(x, { with: A, assert: B })` would take B", where(flags[0]) if flags else b["file"])
+
     # ---------------- C08-Q ------------------------------------------------
     finders = {}
     for b in F.bodies:
